@@ -261,7 +261,6 @@ theorem enqueue_invT {s : Mgr} (h : InvT s) (x : Nat) (r' : Rec) (hst : (s.recs 
       refine (h.c e).congr_inq ?_
       simp [hx]
   · intro e t he t0 h0
-    simp only [enqueue, emit, setRec] at he h0
     injection he with he1 he2
     subst he1; subst he2
     exact hcx.grant_gap ht t0 h0
